@@ -211,6 +211,10 @@ def step (st : St) (line : String) : St × String :=
     | some i, some w => if i < st.orig.size then (st, classify st (st.orig.set! i w).toList false) else (st, "bad-op")
     | _, _ => (st, "bad-op")
   | ["copenerr"] => (st, "err")
+  | ["prelimprefix", live, head] =>    -- prefix heights: live identity db, node head ⇒ prefix of the preliminary copy
+    match live.toNat?, head.toNat? with
+    | some l, some h => (st, s!"prefix {prelimPrefixHeight h} {if prelimPrefixHeight h = l then "same" else "distinct"}")
+    | _, _ => (st, "bad-op")
   | ["switchwrites"] => (st, toString switchWriteGroups)   -- database write events of the real AtomicSwitchToPreliminary
   | _ => (st, "bad-op")
 
